@@ -10,6 +10,9 @@ PANICKY = {"std::result::Result::<T, E>::unwrap", "std::result::Result::<T, E>::
 
 def run(ctx):
     F = ctx.facts("default")
+    ctx.delegate("C09", ["C09.W4", "C09.W123"], "C12.complete",
+                 "finalize flushes each destination itself (a failing flush of either file is that call's error) and a finalize "
+                 "repeated after a failure starts from absolute positions: headers at byte 0, records appended at the end", floor=4)
     ctx.rule("C12.errs", "for every fallible call site on the writer call graph (one instance per site): when that call fails, "
                          "every abstract path through it makes the enclosing function return a value carrying that error "
                          "(Err(..e..)); decided by abstract fault enumeration, so `let _ =`, `.ok()`, `unwrap_or`, storing the "
